@@ -246,8 +246,20 @@ class Repo(object):
                 differ = [n for k, n, _, _ in equiv.units(mod.tree)
                           if isinstance(n, FuncTypes) and (k not in refu or ast.dump(n) != ast.dump(refu[k]))]
                 if differ:
-                    keep = {ast.unparse(n_) for n_ in ast.walk(ref[name]) if isinstance(n_, ast.Assign)}
-                    keep |= {"def " + n_.name for n_ in ast.walk(ref[name]) if isinstance(n_, FuncTypes)}
+                    # per function name: the bindings its confirmed namesake writes too (same statement, same local
+                    # name, or a local holding the same thing whatever it is called here) and its nested defs
+                    keep = {}
+                    for f_ in [n_ for n_ in ast.walk(ref[name]) if isinstance(n_, FuncTypes)]:
+                        k_ = keep.setdefault(f_.name, set())
+                        for n_ in ast.walk(f_):
+                            if isinstance(n_, ast.Assign):
+                                k_.add(ast.unparse(n_))
+                                if len(n_.targets) == 1 and isinstance(n_.targets[0], ast.Name):
+                                    k_.add("name " + n_.targets[0].id)
+                                    if isinstance(n_.value, (ast.Attribute, ast.Lambda)):
+                                        k_.add("value " + ast.unparse(n_.value))
+                            elif isinstance(n_, FuncTypes) and n_ is not f_:
+                                k_.add("def " + n_.name)
                     got = aliases.write_back(mod.tree, related, sites, only=differ, keep=keep, methods=meths)
                     if got:
                         self.simplified.setdefault(name, []).extend("alias " + g for g in got)
